@@ -69,6 +69,37 @@ func forall1(i string, guard Term, body Term) Term {
 	return Term{fmt.Sprintf("(forall ((%s Int)) (=> %s %s))", i, guard.S, body.S), "Bool"}
 }
 
+// forall1p: like forall1 with an explicit instantiation pattern.
+func forall1p(i string, guard Term, body Term, pats ...Term) Term {
+	var ps string
+	for _, p := range pats {
+		ps += fmt.Sprintf(" :pattern (%s)", p.S)
+	}
+	return Term{fmt.Sprintf("(forall ((%s Int)) (! (=> %s %s)%s))", i, guard.S, body.S, ps), "Bool"}
+}
+
+// Membership view of a slice (array arr, length n): mem(arr, n, v) says v
+// occurs among the first n elements. Set-level library facts (concatenation,
+// permutation, compaction) are stated over mem, which the solvers handle
+// propositionally; memFacts ties mem to positions at both ends.
+func (x *Exec) memTerm(arr, n, v Term) Term {
+	fn := "mem_" + sanitize(arr.Sort)
+	x.d.DeclareFun(fn, fmt.Sprintf("(declare-fun %s (%s Int %s) Bool)", fn, arr.Sort, arrayElemSort(arr.Sort)))
+	return mk("Bool", fn, arr, n, v)
+}
+
+func (x *Exec) memFacts(st *State, arr, n Term) {
+	es := arrayElemSort(arr.Sort)
+	fn := "midx_" + sanitize(arr.Sort)
+	x.d.DeclareFun(fn, fmt.Sprintf("(declare-fun %s (%s Int %s) Int)", fn, arr.Sort, es))
+	v := Term{"v_m", es}
+	i := Term{"i_m", "Int"}
+	idx := mk("Int", fn, arr, n, v)
+	st.assume(Term{fmt.Sprintf("(forall ((i_m Int)) (! (=> %s %s) :pattern (%s)))", inRange("i_m", n).S, x.memTerm(arr, n, Select(arr, i)).S, Select(arr, i).S), "Bool"})
+	st.assume(Term{fmt.Sprintf("(forall ((v_m %s)) (! (=> %s %s) :pattern (%s)))", es, x.memTerm(arr, n, v).S,
+		And(Le(IntLit(0), idx), Lt(idx, n), Eq(Select(arr, idx), v)).S, x.memTerm(arr, n, v).S), "Bool"})
+}
+
 func exists1(i string, body Term) Term {
 	return Term{fmt.Sprintf("(exists ((%s Int)) %s)", i, body.S), "Bool"}
 }
@@ -111,15 +142,18 @@ func init() {
 			return Val{}, false
 		}
 		st.assume(forall2("i_s", "j_s", And(Le(IntLit(0), Term{"i_s", "Int"}), Lt(Term{"i_s", "Int"}, Term{"j_s", "Int"}), Lt(Term{"j_s", "Int"}, n)), facts, leT))
-		// same elements
-		st.assume(forall1("i_p", inRange("i_p", n), exists1("j_p", And(inRange("j_p", n), Eq(Select(na, Term{"i_p", "Int"}), Select(old, Term{"j_p", "Int"}))))))
-		st.assume(forall1("j_p", inRange("j_p", n), exists1("i_p", And(inRange("i_p", n), Eq(Select(na, Term{"i_p", "Int"}), Select(old, Term{"j_p", "Int"}))))))
 		// ... as a permutation: na[i] = old[p(i)] with p injective on [0,n)
 		pf := x.d.Fresh("perm", "Int").S + "_f"
 		x.d.DeclareFun(pf, fmt.Sprintf("(declare-fun %s (Int) Int)", pf))
 		p := func(i string) Term { return Term{fmt.Sprintf("(%s %s)", pf, i), "Int"} }
-		st.assume(forall1("i_p", inRange("i_p", n), And(inRange(p("i_p").S, n), Eq(Select(na, Term{"i_p", "Int"}), Select(old, p("i_p"))))))
+		st.assume(forall1p("i_p", inRange("i_p", n), And(inRange(p("i_p").S, n), Eq(Select(na, Term{"i_p", "Int"}), Select(old, p("i_p")))), Select(na, Term{"i_p", "Int"})))
 		st.assume(forall2("i_p", "j_p", And(Le(IntLit(0), Term{"i_p", "Int"}), Lt(Term{"i_p", "Int"}, Term{"j_p", "Int"}), Lt(Term{"j_p", "Int"}, n)), nil, Not(Eq(p("i_p"), p("j_p")))))
+		// ... hence the same elements
+		x.memFacts(st, na, n)
+		x.memFacts(st, old, n)
+		es := arrayElemSort(na.Sort)
+		vm := Term{"v_m", es}
+		st.assume(Term{fmt.Sprintf("(forall ((v_m %s)) (! (= %s %s) :pattern (%s) :pattern (%s)))", es, x.memTerm(na, n, vm).S, x.memTerm(old, n, vm).S, x.memTerm(na, n, vm).S, x.memTerm(old, n, vm).S), "Bool"})
 		ns := mk(sort, "mk_"+sort, na, n, sliceCap(s.T), sliceNil(s.T))
 		if x.sortedBy == nil {
 			x.sortedBy = map[string]func(a, b Term) (Term, []Term, bool){}
@@ -182,6 +216,88 @@ func init() {
 				used(x, "slices.Compact after slices.Sort[Func] with a total-order comparison: the result is strictly sorted")
 			}
 		}
+		return r, true
+	}
+	libTable["slices.CompactFunc"] = func(x *Exec, fr *Frame, st *State, cc *ssa.CallCommon, a []Val) (Val, bool) {
+		T := cc.Args[0].Type()
+		x.te.SortOf(T)
+		elemT := T.Underlying().(*types.Slice).Elem()
+		s := a[0]
+		n := sliceLen(s.T)
+		old := sliceArr(s.T)
+		eq := func(p, q Term) (Term, []Term, bool) {
+			t, facts, ok := x.applyFn2(st, a[1], Val{T: p, Typ: elemT}, Val{T: q, Typ: elemT})
+			return t, facts, ok
+		}
+		if _, _, ok := eq(Select(old, IntLit(0)), Select(old, IntLit(0))); !ok {
+			return Val{}, false
+		}
+		r := x.freshVal(st, "compacted", T)
+		rn := sliceLen(r.T)
+		ra := sliceArr(r.T)
+		fn := x.d.Fresh("cidx", "Int").S + "_f"
+		x.d.DeclareFun(fn, fmt.Sprintf("(declare-fun %s (Int) Int)", fn))
+		f := func(i string) Term { return Term{fmt.Sprintf("(%s %s)", fn, i), "Int"} }
+		st.assume(And(Le(IntLit(0), rn), Le(rn, n), Eq(sliceNil(r.T), sliceNil(s.T)), Eq(Eq(rn, IntLit(0)), Eq(n, IntLit(0)))))
+		st.assume(forall1p("i_c", inRange("i_c", rn), And(inRange(f("i_c").S, n), Eq(Select(ra, Term{"i_c", "Int"}), Select(old, f("i_c")))), Select(ra, Term{"i_c", "Int"})))
+		st.assume(forall2("i_c", "j_c", And(Le(IntLit(0), Term{"i_c", "Int"}), Lt(Term{"i_c", "Int"}, Term{"j_c", "Int"}), Lt(Term{"j_c", "Int"}, rn)), nil, Lt(f("i_c"), f("j_c"))))
+		// no two adjacent elements are equal under eq
+		adj, f1, _ := eq(Select(ra, Term{"i_c", "Int"}), Select(ra, Add(Term{"i_c", "Int"}, IntLit(1))))
+		st.assume(forall1("i_c", And(append([]Term{Le(IntLit(0), Term{"i_c", "Int"}), Lt(Add(Term{"i_c", "Int"}, IntLit(1)), rn)}, f1...)...), Not(adj)))
+		// nothing is lost: every element of s has an eq-equal representative in r
+		x.memFacts(st, ra, rn)
+		x.memFacts(st, old, n)
+		es := arrayElemSort(ra.Sort)
+		vm := Term{"v_m", es}
+		repf := x.d.Fresh("crep", "Int").S + "_f"
+		x.d.DeclareFun(repf, fmt.Sprintf("(declare-fun %s (%s) %s)", repf, es, es))
+		repv := mk(es, repf, vm)
+		// what is kept was there; what was there keeps an eq-equal representative (itself, if kept)
+		st.assume(Term{fmt.Sprintf("(forall ((v_m %s)) (! (=> %s %s) :pattern (%s)))", es, x.memTerm(ra, rn, vm).S, And(x.memTerm(old, n, vm), Eq(repv, vm)).S, x.memTerm(ra, rn, vm).S), "Bool"})
+		rep, f2, _ := eq(repv, vm)
+		st.assume(Term{fmt.Sprintf("(forall ((v_m %s)) (! (=> %s %s) :pattern (%s)))", es, x.memTerm(old, n, vm).S,
+			And(append([]Term{x.memTerm(ra, rn, repv)}, append(f2, rep)...)...).S, x.memTerm(old, n, vm).S), "Bool"})
+		used(x, "slices.CompactFunc (subsequence by an increasing index map, no adjacent eq-equal elements, every element keeps an eq-equal representative)")
+		if le, ok := x.sortedBy[s.T.S]; ok {
+			ri, rj := Select(ra, Term{"i_c", "Int"}), Select(ra, Term{"j_c", "Int"})
+			leT, facts, ok1 := le(ri, rj)
+			eqT, facts2, ok2 := eq(ri, rj)
+			if ok1 && ok2 {
+				st.assume(forall2("i_c", "j_c", And(Le(IntLit(0), Term{"i_c", "Int"}), Lt(Term{"i_c", "Int"}, Term{"j_c", "Int"}), Lt(Term{"j_c", "Int"}, rn)), append(facts, facts2...), And(leT, Not(eqT))))
+				used(x, "slices.CompactFunc after slices.SortFunc with the same total-preorder comparison: the result is strictly sorted")
+			}
+		}
+		return r, true
+	}
+	libTable["slices.Concat"] = func(x *Exec, fr *Frame, st *State, cc *ssa.CallCommon, a []Val) (Val, bool) {
+		// Concat(s1, s2) for exactly two operands
+		va := a[0]
+		k, ok := x.constLen(st, sliceLen(va.T))
+		if !ok || k != 2 {
+			return Val{}, false
+		}
+		T := cc.Signature().Results().At(0).Type()
+		x.te.SortOf(T)
+		s1, s2 := Select(sliceArr(va.T), IntLit(0)), Select(sliceArr(va.T), IntLit(1))
+		if len(va.Elems) == 2 {
+			// the operands themselves (not read back through the argument array)
+			s1, s2 = x.termOf(st, &va.Elems[0]), x.termOf(st, &va.Elems[1])
+		}
+		n1, n2 := sliceLen(s1), sliceLen(s2)
+		r := x.freshVal(st, "concat", T)
+		st.assume(Eq(sliceLen(r.T), Add(n1, n2)))
+		st.assume(forall1p("i_k", inRange("i_k", n1), Eq(Select(sliceArr(r.T), Term{"i_k", "Int"}), Select(sliceArr(s1), Term{"i_k", "Int"})), Select(sliceArr(r.T), Term{"i_k", "Int"}), Select(sliceArr(s1), Term{"i_k", "Int"})))
+		x.memFacts(st, sliceArr(r.T), Add(n1, n2))
+		x.memFacts(st, sliceArr(s1), n1)
+		x.memFacts(st, sliceArr(s2), n2)
+		{
+			es := arrayElemSort(sliceArr(r.T).Sort)
+			vm := Term{"v_m", es}
+			mr, m1, m2 := x.memTerm(sliceArr(r.T), Add(n1, n2), vm), x.memTerm(sliceArr(s1), n1, vm), x.memTerm(sliceArr(s2), n2, vm)
+			st.assume(Term{fmt.Sprintf("(forall ((v_m %s)) (! (= %s (or %s %s)) :pattern (%s) :pattern (%s) :pattern (%s)))", es, mr.S, m1.S, m2.S, mr.S, m1.S, m2.S), "Bool"})
+		}
+		st.assume(forall1p("i_k", And(Le(n1, Term{"i_k", "Int"}), Lt(Term{"i_k", "Int"}, Add(n1, n2))), Eq(Select(sliceArr(r.T), Term{"i_k", "Int"}), Select(sliceArr(s2), Sub(Term{"i_k", "Int"}, n1))), Select(sliceArr(r.T), Term{"i_k", "Int"})))
+		used(x, "slices.Concat (the operands one after the other)")
 		return r, true
 	}
 	libTable["slices.Equal"] = func(x *Exec, fr *Frame, st *State, cc *ssa.CallCommon, a []Val) (Val, bool) {
